@@ -481,6 +481,9 @@ def m_tolist(I, a, args, kw):
 
 def m_reshape(I, a, args, kw):
     shp = args[0] if len(args) == 1 and isinstance(args[0], tuple) else tuple(args)
+    shp = tuple(x.value if isinstance(x, EnumVal) else x for x in shp)
+    if not all(isinstance(x, int) for x in shp):
+        raise Unsupported("reshape with symbolic shape")
     fl = flat(a.data)
     shp = list(shp)
     if -1 in shp:
@@ -491,7 +494,9 @@ def m_reshape(I, a, args, kw):
         shp[k] = len(fl) // rest
     if size(shp) != len(fl):
         I.raise_py("ValueError", f"cannot reshape array of size {len(fl)} into shape {tuple(shp)}")
-    return mk(build(tuple(shp), fl), a.dtype)
+    r = mk(build(tuple(shp), fl), a.dtype)
+    r.tail = tuple(shp)
+    return r
 
 
 METHODS = {"copy": m_copy, "astype": m_astype, "tolist": m_tolist, "reshape": m_reshape,
@@ -502,7 +507,8 @@ METHODS = {"copy": m_copy, "astype": m_astype, "tolist": m_tolist, "reshape": m_
            "all": lambda I, a, args, kw: I.wrap_bool(I.and_(*[I.truth(x) for x in flat(a.data)])),
            "__len__": lambda I, a, args, kw: a.tail[0],
            "transpose": lambda I, a, args, kw: transpose(I, a),
-           "tobytes": lambda I, a, args, kw: Opaque("tobytes", (id(a),)),
+           "tobytes": lambda I, a, args, kw: Obj(I.builtins["bytes"], {"flat": flat(a.data) if a.data is not None else None,
+                                                                       "dtype": a.dtype}, tag="npbytes"),
            }
 
 
@@ -643,6 +649,16 @@ def install(I, mkcls, meth):
     for fn in ("arctan2", "arccos", "arctan", "sin", "cos", "linalg.svd", "linalg.inv", "random.rand", "linspace", "meshgrid",
                "column_stack", "frombuffer", "fromiter", "argmin", "take", "max", "arange"):
         E.setdefault(f"numpy.{fn}", Builtin(f"np.{fn}", (lambda name: lambda i, a, k: i.np_hook(name, a, k))(fn), T))
+
+    def _frombuffer(i, a, k):
+        b = a[0]
+        if isinstance(b, Obj) and b.tag == "npbytes":
+            # byte codec = identity on the reals (binary32 rounding is the stated precision of the claim)
+            r = mk(list(b.fields["flat"]), "float")
+            r.tail = (len(b.fields["flat"]),)
+            return r
+        raise Unsupported("np.frombuffer on non-numpy bytes")
+    E["numpy.frombuffer"] = Builtin("np.frombuffer", _frombuffer, "numpy: frombuffer(tobytes(x)) = x up to binary32 rounding")
 
     def np_hook(name, a, k):
         h = I.st.ghost.get(("np", name))
